@@ -74,6 +74,7 @@ type sim struct {
 	dead      bool // a panic happened (or a parked call could not be observed): the case is abandoned
 	nops      int
 	park      *parkedCall // the Consume call currently parked in NotEmpty (at most one)
+	preSnap   *snapshot   // "before" of the next op, taken before its goroutines were started
 }
 
 // parkedCall is a Consume call running on its own goroutine, blocked in Queue.NotEmpty.
@@ -126,6 +127,9 @@ func (s *sim) op(kind string, g int, n int64, line string, f func() string) {
 		return
 	}
 	before := s.snap()
+	if s.preSnap != nil {
+		before, s.preSnap = *s.preSnap, nil
+	}
 	metaBefore := map[int]gpos{}
 	for k, v := range s.meta {
 		metaBefore[k] = v
@@ -997,6 +1001,7 @@ func (s *sim) doAckConsume(g int, n int64) {
 		n < h.AcknowledgedSeq() || n > h.ConsumedSeq() {
 		return
 	}
+	pre := s.snap()
 	gt := armGate(fmt.Sprintf("/cg/%d/", g))
 	defer disarmGate()
 	adone := make(chan struct{})
@@ -1024,6 +1029,7 @@ func (s *sim) doAckConsume(g int, n int64) {
 		bch <- h.Consume()
 	}()
 	s.c.Branch("race/ack-consume-" + waitDoneOrBlocked(bdone, "sync.RWMutex.Lock", "consumerGroup).consume", 300*time.Millisecond))
+	s.preSnap = &pre
 	s.op("ackconsume", g, n, fmt.Sprintf("ackconsume %d %d", g, n), func() string {
 		gt.open()
 		select {
